@@ -29,6 +29,7 @@ use crate::planner::{Expr, SchemaField};
 use arrow::array::{Array, ArrayRef, RecordBatch};
 use arrow::datatypes::{Schema as ArrowSchema, SchemaRef};
 use async_trait::async_trait;
+use futures::{StreamExt, TryStreamExt};
 use std::fmt;
 use std::sync::Arc;
 
@@ -232,8 +233,18 @@ impl PhysicalOperator for VectorSearchExec {
             return Ok(Box::pin(futures::stream::iter(results)));
         }
 
-        // Exact path: the plan the optimizer replaced, run verbatim.
-        self.fallback.execute(0).await
+        // Exact path: the plan the optimizer replaced, run verbatim — i.e.
+        // every partition it declares, chained lazily (as `UnionExec` does).
+        // Today the fallback is always `Limit(Sort(..))`, which declares one.
+        let fallback = self.fallback.clone();
+        let partitions = fallback.output_partitions().max(1);
+        let chained = futures::stream::iter(0..partitions)
+            .then(move |p| {
+                let fallback = fallback.clone();
+                async move { fallback.execute(p).await }
+            })
+            .try_flatten();
+        Ok(Box::pin(chained))
     }
 }
 
